@@ -169,6 +169,20 @@ def treeVrps (cat : Catalog) (repo : Repo) : Nat → Cert → List Payload
     pointVrps cat (filesOf repo ca.subject) ca ++
       (childCerts cat (filesOf repo ca.subject) ca).flatMap (treeVrps cat repo fuel)
 
+/-- All validated ASPA definitions below `ca`. -/
+def treeAspas (cat : Catalog) (repo : Repo) : Nat → Cert → List AspaDefn
+  | 0, _ => []
+  | fuel + 1, ca =>
+    pointAspas cat (filesOf repo ca.subject) ca ++
+      (childCerts cat (filesOf repo ca.subject) ca).flatMap (treeAspas cat repo fuel)
+
+/-- All validated router keys below `ca`. -/
+def treeRouterKeys (cat : Catalog) (repo : Repo) : Nat → Cert → List RouterKey
+  | 0, _ => []
+  | fuel + 1, ca =>
+    pointRouterKeys cat (filesOf repo ca.subject) ca ++
+      (childCerts cat (filesOf repo ca.subject) ca).flatMap (treeRouterKeys cat repo fuel)
+
 /-- Same payloads, as sets. -/
 def PayloadsExact (got want : List Payload) : Bool := sameMembers got want
 
